@@ -19,11 +19,12 @@ FAMILIES = {
     'tx1h': dict(mode='transaction', pool_size=1, depth=7, maxmsgs=4, probes_last=True),
     'sess1h': dict(mode='session', pool_size=1, depth=6, maxmsgs=3, probes_last=True),
     'tx1': dict(mode='transaction', pool_size=1, depth=5, maxmsgs=3, probes_last=False),
+    'tx1v': dict(mode='transaction', pool_size=1, depth=5, maxmsgs=3, probes_last=True, extras=('vanish',)),
 }
 DEVS = ["putback_reuses_unclean", "copydone_single_recv", "copydone_no_copy_check", "set_in_tx_not_marked",
         "reset_before_rollback", "timeout_keeps_connection", "failed_tx_counts_as_idle", "prepare_not_marked",
         "no_rollback_at_checkin", "no_reset_at_checkin", "map_kept_after_release", "early_return_leaks_guard",
-        "error_keeps_copy_mode"]
+        "error_keeps_copy_mode", "timeout_marks_bad_after_write", "local_batch_keeps_server"]
 PER = 40
 
 
@@ -38,7 +39,8 @@ def shape(steps):
 def run(fam, dev):
     f = FAMILIES[fam]
     cfg = 'Gen_PoolCore_w_%s.cfg' % fam
-    text = props_pool.gen_cfg_text(f['mode'], f['pool_size'], f['depth'], maxmsgs=f['maxmsgs'], probes_last=f['probes_last'])
+    text = props_pool.gen_cfg_text(f['mode'], f['pool_size'], f['depth'], maxmsgs=f['maxmsgs'], probes_last=f['probes_last'],
+                                   extras=f.get('extras', ()))
     text = text.replace('Dev = {}', 'Dev = {%s}' % (('"%s"' % dev) if dev else ''))
     with open(os.path.join(tlc.SPEC, cfg), 'w') as fh:
         fh.write(text)
@@ -50,13 +52,24 @@ def run(fam, dev):
 
 
 def main():
+    """Without arguments every deviation is (re)generated; with arguments only the named deviations are generated and
+    merged into the existing corpus (the stored design expectations of the other scenarios are kept)."""
+    only = sys.argv[1:]
+    devs = only or DEVS
     out = []
+    path = os.path.join(tlc.SPEC, 'witnesses_poolcore.json')
+    if only:
+        with open(path) as fh:
+            for w in json.load(fh):
+                for d in w['witness_of']:
+                    if d not in only:
+                        out.append(dict(w, witness_of=d))
     for fam in FAMILIES:
         design = {}
         for sc in run(fam, None):
             design.setdefault(key(sc['steps']), sc['steps'])
         print(fam, 'design behaviours', len(design), flush=True)
-        for dev in DEVS:
+        for dev in devs:
             seen_shapes = {}
             n = 0
             for sc in run(fam, dev):
@@ -86,7 +99,6 @@ def main():
             w = dict(w)
             w['witness_of'] = [w['witness_of']]
             merged[k] = w
-    path = os.path.join(tlc.SPEC, 'witnesses_poolcore.json')
     with open(path, 'w') as fh:
         json.dump(list(merged.values()), fh)
     print('wrote', len(merged), 'scenarios to', path)
